@@ -1,4 +1,5 @@
 use num_bigint::{BigInt, Sign};
+use num_traits::ToPrimitive;
 
 use super::errors::InterpreterError;
 
@@ -142,36 +143,13 @@ impl ScriptStack for Vec<Vec<u8>> {
     }
 
     fn pop_number(&mut self) -> Result<i32, InterpreterError> {
-        let bytes = self.pop_bytes()?;
-        // Numbers cannot be popped having more than 4 bytes, but may overflow on the stack to 5 bytes
-        // after certain operations and may be used as byte vectors.
-        if bytes.len() > 4 {
-            // let msg = format!("Cannot pop num, len too long {}", top.len());
-            return Err(InterpreterError::NumberOutOfRange);
-        }
-
-        let mut val = match bytes.len() {
-            0 => return Ok(0),
-            1 => (bytes[0] & 127) as i64,
-            2 => (((bytes[1] & 127) as i64) << 8) + (bytes[0] as i64),
-            3 => (((bytes[2] & 127) as i64) << 16) + ((bytes[1] as i64) << 8) + (bytes[0] as i64),
-            4 => (((bytes[3] & 127) as i64) << 24) + ((bytes[2] as i64) << 16) + ((bytes[1] as i64) << 8) + (bytes[0] as i64),
-            _ => {
-                for byte in &bytes {
-                    if byte != &0 {
-                        return Err(InterpreterError::NumberOutOfRange);
-                    }
-                }
-                if bytes[bytes.len() - 1] & 127 != 0 {
-                    return Err(InterpreterError::NumberOutOfRange);
-                }
-                ((bytes[3] as i64) << 24) + ((bytes[2] as i64) << 16) + ((bytes[1] as i64) << 8) + (bytes[0] as i64)
-            }
-        };
-        if bytes[bytes.len() - 1] & 128 != 0 {
-            val = 0 - val;
-        }
-
-        Ok(val as i32)
+        // Positions, sizes, counts and shift amounts are script numbers like any other: of any length and not
+        // necessarily minimally encoded. A value beyond the i32 range is out of range for every stack, item or
+        // key list that fits in memory, so it is clamped and left to the caller's range check.
+        let value = to_bigint(&self.pop_bytes()?)?;
+        Ok(value.to_i32().unwrap_or(match value.sign() {
+            Sign::Minus => i32::MIN,
+            _ => i32::MAX,
+        }))
     }
 }
